@@ -11,6 +11,7 @@ UNIT_MODULES = {
     "GenInfini": "gen_infini",
     "GenMissing": "gen_missing",
     "GenFarmer": "gen_farmer",
+    "GenHarvest": "gen_harvest",
     "GenNames": "gen_names",
     "GenPublish": "gen_publish",
     "GenReap": "gen_reap",
